@@ -979,53 +979,80 @@ Proof.
   unfold enc1. repeat match goal with |- context [if ?b then _ else _] => destruct b end; discriminate.
 Qed.
 
-Lemma xml_read_keep_encoded utf8 cw kq s : no_ref s = true ->
-  forall fuel, (length (xml_enc cw kq false s) <= fuel)%nat ->
-  read_keep utf8 fuel (xml_enc cw kq false s) = Some s.
+(* the delimiter never occurs as the first character of something the writer emits:
+   '<' is always escaped, the quotes are escaped in attribute values (keepQuotes = false) *)
+Definition stop_ok (kq : bool) (stop : N) : Prop := stop = 60 \/ (kq = false /\ (stop = 34 \/ stop = 39)).
+
+Lemma enc1_head cw kq c stop : stop_ok kq stop -> exists h t, enc1 cw kq c = h :: t /\ (h =? stop) = false.
 Proof.
-  induction s as [|c t IH]; intros NR fuel Hf.
-  - destruct fuel; reflexivity.
-  - rewrite xml_enc_step in * by assumption.
-    assert (NRt : no_ref t = true) by (cbn [no_ref] in NR; apply andb_true_iff in NR; tauto).
-    pose proof (enc1_nonempty cw kq c) as NE.
-    destruct (enc1 cw kq c ++ xml_enc cw kq false t) as [|x y] eqn:E.
-    { destruct (enc1 cw kq c); [congruence | discriminate]. }
-    destruct fuel as [|k]; [cbn [length] in Hf; lia|].
-    cbn [read_keep]. rewrite <- E. rewrite xml_char_roundtrip.
-    rewrite (IH NRt k).
-    + reflexivity.
-    + rewrite <- E in Hf. rewrite app_length in Hf. destruct (enc1 cw kq c); [congruence|]. cbn [length] in Hf. lia.
+  intros SO. unfold enc1.
+  assert (A : (38 =? stop) = false) by (destruct SO as [->|[_ [->| ->]]]; reflexivity).
+  destruct (N.eqb_spec c 38); [eexists; eexists; split; [reflexivity | exact A]|].
+  destruct (N.eqb_spec c 60); [eexists; eexists; split; [reflexivity | exact A]|].
+  destruct (N.eqb_spec c 62); [eexists; eexists; split; [reflexivity | exact A]|].
+  destruct ((c =? 34) && negb kq) eqn:Q1; [eexists; eexists; split; [reflexivity | exact A]|].
+  destruct ((c =? 39) && negb kq) eqn:Q2; [eexists; eexists; split; [reflexivity | exact A]|].
+  destruct ((c <? 32) && (cw || negb (is_space c))); [eexists; eexists; split; [reflexivity | exact A]|].
+  exists c, []. split; [reflexivity|]. apply N.eqb_neq.
+  destruct SO as [->|[-> [->| ->]]]; try assumption.
+  - rewrite andb_true_r in Q1. now apply N.eqb_neq.
+  - rewrite andb_true_r in Q2. now apply N.eqb_neq.
 Qed.
 
-(* attribute values written by the library are read back unchanged (any bytes, any white space) *)
-Lemma xml_attribute_roundtrip utf8 cw s : no_ref s = true ->
-  xml_read_attr utf8 (xml_encode cw false s) = Some s.
-Proof. intros H. unfold xml_read_attr, xml_encode. apply xml_read_keep_encoded; [assumption | lia]. Qed.
+Lemma xml_read_keep_encoded utf8 cw kq stop s rest : no_ref s = true -> stop_ok kq stop ->
+  forall fuel, (length (xml_enc cw kq false s) <= fuel)%nat ->
+  read_keep utf8 stop fuel (xml_enc cw kq false s ++ stop :: rest) = Some s.
+Proof.
+  intros NR SO. induction s as [|c t IH]; intros fuel Hf.
+  - cbn [xml_enc app read_keep]. now rewrite N.eqb_refl.
+  - rewrite xml_enc_step in * by assumption.
+    assert (NRt : no_ref t = true) by (cbn [no_ref] in NR; apply andb_true_iff in NR; tauto).
+    destruct (enc1_head cw kq c stop SO) as (h & tl & E & Hh).
+    rewrite <- app_assoc. rewrite E in *. cbn [app read_keep]. rewrite Hh.
+    destruct fuel as [|k]; [cbn [length app] in Hf; lia|].
+    change (h :: tl ++ xml_enc cw kq false t ++ stop :: rest) with ((h :: tl) ++ xml_enc cw kq false t ++ stop :: rest).
+    rewrite <- E. rewrite xml_char_roundtrip. rewrite (IH NRt k).
+    + reflexivity.
+    + cbn [length app] in Hf. rewrite app_length in Hf. lia.
+Qed.
+
+(* attribute values written by the library are read back unchanged (any bytes, any white space), whichever quote
+   delimits them and whatever follows in the document *)
+Lemma xml_attribute_roundtrip utf8 cw q s rest : no_ref s = true -> q = 34 \/ q = 39 ->
+  xml_read_attr utf8 q (xml_encode cw false s ++ q :: rest) = Some s.
+Proof.
+  intros H Q. unfold xml_read_attr, xml_encode. apply xml_read_keep_encoded; [assumption | right; tauto|].
+  rewrite app_length. lia.
+Qed.
 
 (* element text, white space kept (condensing switched off): read back unchanged unless it is all white space *)
-Lemma xml_text_roundtrip_keep utf8 s : no_ref s = true -> all_space s = false ->
-  xml_read_text false utf8 (xml_encode false true s) = Some s.
+Lemma xml_text_roundtrip_keep utf8 s rest : no_ref s = true -> all_space s = false ->
+  xml_read_text false utf8 (xml_encode false true s ++ 60 :: rest) = Some s.
 Proof.
-  intros H B. unfold xml_read_text, xml_encode. rewrite xml_read_keep_encoded by (assumption || lia). now rewrite B.
+  intros H B. unfold xml_read_text, xml_encode.
+  rewrite xml_read_keep_encoded; [now rewrite B | assumption | now left|]. rewrite app_length. lia.
 Qed.
 
 (* REFUTED for arbitrary strings: text that already looks like a hexadecimal reference is written unescaped
    and comes back decoded ("&#x41;" -> "A"), and "a&#x" produces a document that cannot be parsed *)
 Lemma xml_roundtrip_refuted :
-  xml_read_attr true (xml_encode true false [38; 35; 120; 52; 49; 59]) = Some [65] /\
-  xml_read_attr true (xml_encode true false [97; 38; 35; 120]) = None.
+  xml_read_attr true 34 (xml_encode true false [38; 35; 120; 52; 49; 59] ++ [34; 32; 47; 62]) = Some [65] /\
+  xml_read_attr true 34 (xml_encode true false [97; 38; 35; 120] ++ [34; 32; 47; 62]) = None.
 Proof. split; reflexivity. Qed.
 
 (* blank element text is dropped by the reader in both modes *)
-Lemma xml_blank_text_refuted : xml_read_text true true (xml_encode true true [9]) = Some [] /\
-                               xml_read_text false true (xml_encode false true [32]) = Some [].
+Lemma xml_blank_text_refuted : xml_read_text true true (xml_encode true true [9] ++ [60; 47; 114; 62]) = Some [] /\
+                               xml_read_text false true (xml_encode false true [32] ++ [60; 47; 114; 62]) = Some [].
 Proof. split; reflexivity. Qed.
 
 (* hand-written references: lower case, upper case and decimal denote the same character; condensing does
-   not touch decoded characters; a reference above 127 becomes UTF-8 *)
+   not touch decoded characters; a reference above 127 becomes UTF-8 in UTF-8 mode and one byte otherwise; an
+   unterminated reference looks for its ';' beyond the end of the value *)
 Example xml_reference_examples :
-  xml_read_attr true [38;35;120;48;97;59; 38;35;120;48;65;59; 38;35;49;48;59] = Some [10; 10; 10] /\
-  xml_read_text true true [32; 97; 32; 32; 38;35;120;48;65;59; 98; 32] = Some [97; 32; 10; 98] /\
-  xml_read_attr true [38;35;50;51;51;59] = Some [195; 169] /\
-  xml_read_attr true [38;35;120;90;59] = None.
+  xml_read_attr true 34 ([38;35;120;48;97;59; 38;35;120;48;65;59; 38;35;49;48;59] ++ [34]) = Some [10; 10; 10] /\
+  xml_read_text true true ([32; 97; 32; 32; 38;35;120;48;65;59; 98; 32] ++ [60]) = Some [97; 32; 10; 98] /\
+  xml_read_attr true 34 ([38;35;50;51;51;59] ++ [34]) = Some [195; 169] /\
+  xml_read_attr false 34 ([38;35;50;51;51;59] ++ [34]) = Some [233] /\
+  xml_read_attr true 34 ([38;35;120;90;59] ++ [34]) = None /\
+  xml_read_attr true 34 ([38;35] ++ [34; 62; 60; 47; 114; 62]) = None.
 Proof. repeat split; reflexivity. Qed.
